@@ -1,11 +1,12 @@
 import SdcModel.Basic.Io
 import SdcModel.Fp64
 import SdcModel.Scalars
+import SdcModel.ScalarsDt
 open Sdc Sdc.Fp64 Sdc.Scalars
 
 /-! driver of the C18 model. Strings travel as `x<hex of utf-8>`; floats as `<neg 0|1> <m> <e>` (value m·2^e).
     ops: tspy S | tsxml n m e | int S | intxml i | bool S | boolxml 0|1 | decpy S | decxml n c e |
-         durstr n m e | durpy S | enum S L1 L2 …   -/
+         durstr n m e | durpy S | enum S L1 L2 … | dtpy S | dtstr y mo d hh mm ss FRAC eod tz   -/
 
 def hexVal (c : Char) : Option Nat :=
   if '0' ≤ c ∧ c ≤ '9' then some (c.toNat - 48)
@@ -57,6 +58,39 @@ def tsWindow (a b : Nat) : Nat × UInt64 := Id.run do
     cs := cs + x.m.toUInt64 * (n % 65521 + 1).toUInt64 + ((x.e + 1100).toNat * 31).toUInt64 + (k.toNat * 17).toUInt64
   return (bad, cs)
 
+def showOptNat : Option Nat → String
+  | some n => toString n
+  | none => "-"
+
+/-- canonical dump of a parsed date/time; the seconds as the float `float('SS.fff')` -/
+def showDateInfo (i : DateInfo) : String :=
+  let t := match i.time with
+    | some (hh, mm, ss, fr) =>
+      let x := if fr.isEmpty then rnRat false ss 1 else floatOfDecimal (natStr ss) fr
+      s!"{hh} {mm} {if x.neg then 1 else 0}:{x.m}:{x.e}"
+    | none => "- - -"
+  let tz := match i.tz with | some o => toString o | none => "-"
+  s!"ok {i.year} {showOptNat i.month} {showOptNat i.day} {t} {if i.eod then 1 else 0} {tz}"
+
+def parseOptNat (w : String) : Option (Option Nat) := if w == "-" then some none else w.toNat?.map some
+
+def parseDateInfo (ws : List String) : Option DateInfo :=
+  match ws with
+  | [y, mo, d, hh, mm, ss, fr, eod, tz] => do
+    let y ← y.toInt?
+    let mo ← parseOptNat mo
+    let d ← parseOptNat d
+    let hh ← parseOptNat hh
+    let mm ← parseOptNat mm
+    let ss ← parseOptNat ss
+    let fr ← decodeStr fr
+    let tz ← (if tz == "-" then some none else tz.toInt?.map some)
+    let tm := match hh, mm, ss with
+      | some a, some b, some c => some (a, b, c, fr)
+      | _, _, _ => none
+    pure ⟨y, mo, d, tm, eod == "1", tz⟩
+  | _ => none
+
 def stepLine (st : Unit) (line : String) : Unit × String :=
   (st, match Io.words line with
   | ["tspy", s] => match decodeStr s with
@@ -89,6 +123,12 @@ def stepLine (st : Unit) (line : String) : Unit × String :=
     | none => "bad-op"
   | ["durpy", s] => match decodeStr s with
     | some s => showRes showFp (parseDuration s)
+    | none => "bad-op"
+  | ["dtpy", s] => match decodeStr s with
+    | some s => showRes showDateInfo (parseDateTime s)
+    | none => "bad-op"
+  | "dtstr" :: ws => match parseDateInfo ws with
+    | some i => "ok " ++ showStr (dateTimeStr i)
     | none => "bad-op"
   | "enum" :: s :: lits => match decodeStr s, lits.mapM decodeStr with
     | some s, some ls => showRes (fun i => s!"ok {i}") (enumToPy ls s)
